@@ -44,12 +44,17 @@ def run(tier, miri=False):
         menv = dict(env)
         menv["CARGO_TARGET_DIR"] = str(CACHE / "target-lab-miri")
         menv["MIRIFLAGS"] = "-Zmiri-disable-isolation"
-        m = subprocess.run(["cargo", "+nightly", "miri", "run", "--offline", "--", "3", "150", str(get_seed()), "0", "1"], cwd=str(VERIF / "rust" / "lab"), env=menv,
-                           stdout=subprocess.PIPE, stderr=subprocess.PIPE, text=True, timeout=3600)
+        try:
+            m = subprocess.run(["cargo", "+nightly", "miri", "run", "--offline", "--", "2", "60", str(get_seed()), "0", "1"], cwd=str(VERIF / "rust" / "lab"), env=menv,
+                               stdout=subprocess.PIPE, stderr=subprocess.PIPE, text=True, timeout=2400)
+        except subprocess.TimeoutExpired:
+            out["miri"] = {"exit": "timeout", "reports": [], "histories": 0}
+            shutil.rmtree(d, ignore_errors=True)
+            return out
         ub = [l for l in m.stderr.splitlines() if "Undefined Behavior" in l or l.startswith("error")]
         out["miri"] = {"exit": m.returncode, "reports": ub[:5]}
         try:
-            out["miri"]["histories"] = json.loads(m.stdout.strip().splitlines()[-1])["exhaustive_histories"] + 150
+            out["miri"]["histories"] = json.loads(m.stdout.strip().splitlines()[-1])["exhaustive_histories"] + 60
         except Exception:
             out["miri"]["histories"] = 0
     shutil.rmtree(d, ignore_errors=True)
